@@ -74,6 +74,8 @@ class Parser:
                 if self.at(":"):
                     self.eat()
                     ty = self.eat()[1]
+                    while not self.at("="):          # a path / generic type: `Sd::Elem`, `Vec<T>`
+                        ty += self.eat()[1]
                     pat = ("typed", pat, ty)
                 self.eat("=")
                 e = self.expr()
@@ -279,6 +281,15 @@ class Parser:
             name = "::".join(path)
             if self.at("!"):                       # macro: panic!/unimplemented!/unreachable! are panics
                 self.eat()
+                if path[-1] == "matches":
+                    self.eat("(")
+                    e1 = self.expr()
+                    self.eat(",")
+                    p1 = self.expr()
+                    if self.at(","):
+                        self.eat()
+                    self.eat(")")
+                    return ("matches", e1, p1)
                 self.skip_balanced("(", ")")
                 if path[-1] in ("panic", "unimplemented", "unreachable", "todo"):
                     return ("panic",)
@@ -780,10 +791,14 @@ class Strat:
     """statement compiler for the accessors of `Interp1D` / `Interp2D` and for `interp_into` of Linear / Bilinear.
     `arrays`: Rust place (e.g. `self.x`) -> Lean list name;  `calls`: method name -> (generated Lean function, leading Lean arguments)."""
 
-    def __init__(self, arrays, calls, aliases=()):
+    def __init__(self, arrays, calls, aliases=(), alias_arrays=None, strat_name="self"):
         self.arrays, self.calls = arrays, calls
         self.aliases = set(aliases)
+        self.alias_arrays = alias_arrays or {}        # `interp.x` -> Lean list, for field reads through the interpolator
         self.n = 0
+        self.usize = set()       # variables known to hold indices
+        self.mut = set()
+        self.consts = {}         # let-bound scalar constants (`cast(1.0)`)
 
     def fresh(self, p):
         self.n += 1
@@ -792,13 +807,29 @@ class Strat:
     def place(self, e):
         if e[0] == "field" and e[1] == ("var", "self") and e[2] in self.arrays:
             return self.arrays[e[2]]
+        if e[0] == "field" and e[1][0] == "var" and e[1][1] in self.aliases and e[2] in self.alias_arrays:
+            return self.alias_arrays[e[2]]
         return None
+
+    def is_usize(self, e):
+        k = e[0]
+        if k == "num":
+            return "." not in e[1]
+        if k == "var":
+            return e[1] in self.usize
+        if k == "method" and e[2] == "len":
+            return True
+        if k == "bin":
+            return self.is_usize(e[2]) or self.is_usize(e[3])
+        return False
 
     # pure usize / scalar expressions with hoisted reads (as in `Lower.pure`), over named arrays
     def pure(self, e):
         k = e[0]
         if k == "num":
             return [], e[1]
+        if k == "var" and e[1] in self.consts:
+            return [], self.consts[e[1]]
         if k == "var":
             return [], e[1]
         if k == "method" and e[2] == "len" and self.place(e[1]):
@@ -809,6 +840,16 @@ class Strat:
             v = self.fresh("r")
             eff.append(lambda rest, ind, i=i, v=v, arr=arr: f"match {arr}[{i}]? with\n{ind}| none => .error .panic\n{ind}| some {v} =>\n{ind}  {rest(ind + '  ')}")
             return eff, v
+        if k == "var" and e[1] in self.consts:
+            return [], self.consts[e[1]]
+        if k == "bin" and not self.is_usize(e):
+            ea, a = self.pure(e[2])
+            eb, b = self.pure(e[3])
+            return ea + eb, f"({a} {e[1]} {b})"
+        if k == "method" and e[2] == "rem_euclid" and len(e[3]) == 1:
+            ea, a = self.pure(e[1])
+            eb, b = self.pure(e[3][0])
+            return ea + eb, f"(RemEuclid.remEuclid {a} {b})"
         if k == "bin" and e[1] in "+-":
             ea, a = self.pure(e[2])
             eb, b = self.pure(e[3])
@@ -820,7 +861,7 @@ class Strat:
         if k == "method" and e[2] in ("index_axis", "index_axis_move") and len(e[3]) == 2:
             # `arr.index_axis(Axis(0), i)`: row i of the (remaining) leading axis
             ax = e[3][0]
-            if not (ax[0] == "call" and last(ax[1]) == "Axis" and ax[2] == [("num", "0")]):
+            if not ((ax[0] == "call" and last(ax[1]) == "Axis" and ax[2] == [("num", "0")]) or ax == ("var", "AX0")):
                 raise Unavailable("index_axis along an axis other than Axis(0)")
             base = self.place(e[1])
             if base is None:
@@ -891,6 +932,10 @@ class Strat:
         if k == "method":
             eff, v = self.pure(c)
             return self.wrap(eff, lambda i2: f"if {v} then\n{i2}  {th(i2 + '  ')}\n{i2}else\n{i2}  {el(i2 + '  ')}", ind)
+        if k == "matches" and c[1] == ("field", ("var", "self"), "extrapolate") and c[2][0] == "var" and last(c[2][1]) in ("No", "Yes", "Periodic"):
+            return f"if s.extrapolate == .{last(c[2][1]).lower()} then\n{ind}  {th(ind + '  ')}\n{ind}else\n{ind}  {el(ind + '  ')}"
+        if k == "var":
+            return f"if {c[1]} then\n{ind}  {th(ind + '  ')}\n{ind}else\n{ind}  {el(ind + '  ')}"
         raise Unavailable(f"condition {k}")
 
     def pat(self, p):
@@ -939,26 +984,43 @@ class Strat:
         lean = f"Lanes.map{k} (fun {' '.join(params[:-1])} => {txt}{v}) {' '.join(s[1] for s in srcs[:-1])}"
         return tgt, lean
 
-    def stmts(self, ss, tail, ind, result):
-        """result(e) : text for the value of the function given the final expression"""
+    def stmts(self, ss, tail, ind, result, k=None):
+        """result(e) : text for the value of the function given the final expression; k : what follows when the block ends without one"""
         if not ss:
             if tail is None:
-                raise Unavailable("function falls off its end")
+                if k is None:
+                    raise Unavailable("function falls off its end")
+                return k(ind)
             return result(tail, ind)
         s, rest = ss[0], ss[1:]
-        nxt = lambda i2: self.stmts(rest, tail, i2, result)
-        if s[0] == "let" and s[2][0] == "var" and s[2][1] in ("interpolator",) and s[1][0] == "var":
+        nxt = lambda i2: self.stmts(rest, tail, i2, result, k)
+        if s[0] == "let" and s[2][0] == "var" and s[2][1] in self.aliases and s[1][0] == "var":
             self.aliases.add(s[1][1])
+            return nxt(ind)
+        if s[0] == "let" and s[1][0] == "var" and s[2] == ("var", s[1][1]):
+            if s[3]:
+                self.mut.add(s[1][1])          # `let mut x = x;`
+            return nxt(ind)
+        if s[0] == "let" and s[1][0] == "typed" and s[2][0] == "method" and s[2][1][0] == "call" and last(s[2][1][1]) == "cast" \
+                and s[2][1][2] and s[2][1][2][0][0] == "num" and s[2][1][2][0][1] in ("0.0", "1.0", "2.0", "3.0"):
+            self.consts[s[1][1][1]] = "c" + s[2][1][2][0][1][0]      # `let one: T = cast(1.0).unwrap_or_else(..)`
             return nxt(ind)
         if s[0] == "let":
             eff, v = self.pure(s[2])
+            if s[1][0] == "var" and (self.is_usize(s[2]) or (s[2][0] == "method" and s[2][2] in ("get_index_left_of", "get_lower_index"))):
+                self.usize.add(s[1][1])
+            if s[1][0] == "var" and s[3]:
+                self.mut.add(s[1][1])
             return self.wrap(eff, lambda i2: f"let {self.pat(s[1])} := {v}\n{i2}" + nxt(i2), ind)
+        if s[0] == "assign" and s[1][0] == "var" and s[1][1] in self.mut:
+            eff, v = self.pure(s[2])
+            return self.wrap(eff, lambda i2: f"let {s[1][1]} := {v}\n{i2}" + nxt(i2), ind)
         if s[0] == "return":
             return result(s[1], ind)
         if s[0] == "expr" and s[1][0] == "if":
             _, c, th, el = s[1]
-            th_f = lambda i2: self.stmts(th[1], th[2], i2, result) if not (th[2] is None and not th[1]) else nxt(i2)
-            el_f = (lambda i2: self.stmts(el[1], el[2], i2, result)) if el is not None else nxt
+            th_f = lambda i2: self.stmts(th[1], th[2], i2, result, nxt)
+            el_f = (lambda i2: self.stmts(el[1], el[2], i2, result, nxt)) if el is not None else nxt
             return self.cond(c, th_f, el_f, ind)
         if s[0] == "expr":
             z = self.zip_stmt(s[1])
@@ -1033,6 +1095,11 @@ def gen_strategies(src_dir, out, all_unavailable=False):
             lambda: (lambda b: Strat({}, calls1, aliases=["interpolator"]).stmts(b[1], b[2], "  ", strat_result("target")))(parse_fn(lin, r"fn\s+interp_into\s*\(")),
             fallback="linearInterp ext xs ys x",
             depends=["acc1_is_in_range", "acc1_get_index_left_of", "acc1_index_point"])
+    # ---- CubicSplineStrategy::interp_into
+    cs = rd("interp1d/strategies/cubic_spline.rs")
+    add("spline_interp_into", "{α V : Type} [Cmp α] [Add α] [Sub α] [Mul α] [Div α] [Neg α] [NatCast α] [ToUsize α] [RemEuclid α] [Lanes α V] (s : SplineStrat V) (xs : List α) (ys : List V) (x : α) : Except Fault V",
+        lambda: (lambda b: Strat({"a": "s.a", "b": "s.b"}, calls1, aliases=["interp"], alias_arrays={"x": "xs", "data": "ys"}).stmts(b[1], b[2], "  ", strat_result("target")))(parse_fn(cs, r"fn\s+interp_into\s*\(")),
+        fallback="splineInterp s xs ys x", depends=["acc1_is_in_range", "acc1_get_index_left_of", "acc1_index_point"])
     # ---- Interp2D accessors
     c2 = rd("interp2d/mod.rs")
     A2 = {"x": "xs", "y": "ys", "data": "zs"}
@@ -1115,7 +1182,7 @@ def emit(out):
     L = ["/-", "GENERATED by tools/translate_control.py from /repo/src/vector_extensions.rs on every run — do not edit.",
          "The control flow of `MonotonicState::{start, update, short_circuit, finish}`, `monotonic_prop` and `get_lower_index`,",
          "statement by statement, as it is in the source now.  `NdInterp/Props/FormulaTie/Ctl.lean` proves each function equal to the",
-         "hand-written model for every input.", "-/", "import NdInterp.Model.Linear", "",
+         "hand-written model for every input.", "-/", "import NdInterp.Model.Spline", "",
          "set_option linter.unusedVariables false", "", "namespace NdInterp.GenCtl", "open NdInterp", ""]
     for d in out.defs:
         ok = d["body"] is not None
